@@ -33,8 +33,11 @@ Padded(x, pads, w, r, c, mode) ==
                                 ELSE IF mode = "edge" THEN RowPadded(x, pads, w, r, NY(x), mode) ELSE 0)
     ELSE RowPadded(x, pads, w, r, c - w, mode)
 
-RECURSIVE SumTo(_, _)
-SumTo(f, n) == IF n = 0 THEN 0 ELSE f[n] + SumTo(f, n - 1)
+\* sum of f[lo..hi], by halving (recursion depth log n: the 19x19 kernel of std 3 has 361 entries)
+RECURSIVE SumRange(_, _, _)
+SumRange(f, lo, hi) == IF lo > hi THEN 0 ELSE IF lo = hi THEN f[lo]
+                       ELSE LET mid == (lo + hi) \div 2 IN SumRange(f, lo, mid) + SumRange(f, mid + 1, hi)
+SumTo(f, n) == SumRange(f, 1, n)
 \* kernel table K: sequence of 2w+1 rows of 2w+1 non-negative integers
 KW(K)   == (Len(K) - 1) \div 2
 KSum(K) == SumTo([ t \in 1..(Len(K) * Len(K)) |-> K[((t - 1) \div Len(K)) + 1][((t - 1) % Len(K)) + 1] ], Len(K) * Len(K))
